@@ -727,6 +727,9 @@ class Values:
         for u in unit.module.units.values():
             if u.node is node:
                 return u
+        for u in unit.module.__dict__.get("synthetic_units", ()):  # nested scopes of inlined views
+            if u.node is node:
+                return u
         return None
 
     # -------------------------------------------------------------- attributes
@@ -863,6 +866,8 @@ class Values:
             return self.call_builtin(unit, f[1], e, at)
         if k == "stdlib":
             return self.call_stdlib(unit, f[1], e, at)
+        if k in ("sentinel", "none"):
+            return EMPTY  # ``getattr(x, "aclose", <default>)``: the default is never called (guarded by identity)
         if k == "acall":
             return V(("userawait", f[1]))
         if k in ("user", "result", "item", "usermeth", "iter", "siter"):
